@@ -150,7 +150,12 @@ def check_c05(out, tier):
     mine = lambda c: c.startswith("C05.")
     pipeline.l1(out, ["MC_C05_%s.cfg" % tier])
     k = pipeline.SIZES[tier]
-    judge_docs(out, c05_cases(rnd, 280 * k, "c05g"), ["C05"], mine)
+    chains = []
+    for i in range(30 * k):
+        c = gen.chain_case(rnd, "c05j%d" % i)
+        c["want_shacl"] = False      # shape-map labels: the SHACL serializer is exercised by the class-target cases
+        chains.append(c)
+    judge_docs(out, c05_cases(rnd, 280 * k, "c05g") + chains, ["C05"], mine)
     # closure at the level of the abstract schema (references after thresholds / removal of empty shapes), custom instantiation property
     cl = []
     for i in range(120 * k):
@@ -162,6 +167,7 @@ def check_c05(out, tier):
             pipeline.target_variants(rnd, T, cfg, rnd.random() < .5)
             cfg["instProp"] = ip
         cl.append(gen.case("c05c%d" % i, T, **cfg))
+    cl += [gen.chain_case(rnd, "c05k%d" % i) for i in range(40 * k)]
     pipeline.run_and_judge(out, cl, ["C05"], mine)
     pins = [p for p in common.load_pinned("C05") if "case" in p]
     if pins:
